@@ -2,7 +2,12 @@
 
 package eio
 
-import "github.com/karagenc/socket.io-go/internal/vsched"
+import (
+	"net/http"
+
+	"github.com/karagenc/socket.io-go/engine.io/transport"
+	"github.com/karagenc/socket.io-go/internal/vsched"
+)
 
 func init() {
 	// the id sequence is process-global; every explored execution must start from the same state
@@ -29,3 +34,19 @@ func sortStrings(a []string) {
 		}
 	}
 }
+
+// ---- upgrade seams (C07): the real probe / upgrade state machines with a harness-provided candidate transport
+
+// VerifMaybeUpgrade runs what onWebTransport does after its handshake: the server half of an upgrade
+// of socket to the candidate transport t (named "webtransport").
+func (s *Server) VerifMaybeUpgrade(w http.ResponseWriter, r *http.Request, socket ServerSocket, t ServerTransport, c *transport.Callbacks) {
+	s.maybeUpgrade(w, r, socket.(*serverSocket), "webtransport", t, c)
+}
+
+// VerifTryUpgradeTo runs the client half of an upgrade to the candidate transport t.
+func VerifTryUpgradeTo(cs ClientSocket, t ClientTransport, c *transport.Callbacks) bool {
+	return cs.(*clientSocket).tryUpgradeTo(t, c)
+}
+
+// VerifServerTransportName reports the server socket's current transport.
+func VerifServerTransportName(s ServerSocket) string { return s.(*serverSocket).TransportName() }
